@@ -586,7 +586,7 @@ VARIANTS = [
     ("order_links_not_reattached", "pydcop/computations_graph/ordered_graph.py", "        node.links.extend(order_links)\n", "", "break", "R-REPR.d"),
     ("order_links_not_written", "pydcop/computations_graph/ordered_graph.py", "        r[\"order_links\"] = simple_repr(\n            [l for l in self.links if l.type in (\"previous\", \"next\")]\n        )\n", "", "break"),
     ("terminate_fields_back", "pydcop/algorithms/syncbb.py", "SyncBBTerminateMessage = message_type(\"terminate\", [])", "SyncBBTerminateMessage = message_type(\"terminate\", [\"current_path\", \"ub\"])", "break", "R-PROTO.c"),
-    ("msg_ctor_missing_arg", "pydcop/algorithms/mgm.py", "MgmGainMessage(self._gain, self.__random__)", "MgmGainMessage(self._gain)", "break", "R-PROTO.c"),
+    ("msg_ctor_extra_arg", "pydcop/algorithms/mgm.py", "MgmGainMessage(self._gain, self.__random__)", "MgmGainMessage(self._gain, self.__random__, self.name)", "break", "R-PROTO.c"),
     ("discovery_msg_missing_field", "pydcop/infrastructure/discovery.py", "PublishReplicaMessage(replica, agent, True))", "PublishReplicaMessage(replica, agent))", "break", "R-PROTO.c"),
     ("stamp_another_attr", "pydcop/algorithms/dsatuto.py", "    def on_start(self):\n", "    def _stamp(self, msg):\n        msg.origin = self.name\n        return msg\n\n    def on_start(self):\n", "break", "R-REPR.d"),
     ("http_header_renamed", _CM, "                    \"dest-comp\": msg.dest_comp,\n", "                    \"dest-computation\": msg.dest_comp,\n", "break", "R-WIRE.http"),
